@@ -623,7 +623,11 @@ func (g *FuncGen) analyzeCFG() {
 		if g.contract != nil {
 			li.spec = g.contract.Loops[li.ordinal]
 			if li.spec != nil {
-				g.anchor(fmt.Sprintf("loop %d", li.ordinal), li.minPos)
+				// loop invariants are attached by ordinal: remember the number of loops
+				if g.anchors == nil {
+					g.anchors = map[string]string{}
+				}
+				g.anchors["loops"] = fmt.Sprint(len(ls))
 			}
 		}
 	}
